@@ -7,6 +7,8 @@ A feature is a dict {seqid, strand, featuretype, start, end}.  Criteria are desc
     "overlap_start_inclusive" | "overlap_any_inclusive" | ["overlap_end_threshold", t] |
     ["overlap_start_threshold", t] | ["overlap_any_threshold", t] |
     ["custom", name, parameter...]     (reflexive predicates on (run so far, feature, members of the run))
+    ["as", style, criterion]           (the criterion, answering with truthy / falsy values that are not True / False; the
+                                        criteria are combined as in all(): only the truth value of an answer counts)
 DEFAULT is the criteria list merge() uses when none is given.
 """
 DEFAULT = ["seqid", "overlap_end_inclusive", "strand", "feature_type"]
@@ -25,6 +27,8 @@ def ends_in_or_before(acc, cur, reach):
 
 def accepts_one(c, acc, cur, members):
     name, args = (c, []) if isinstance(c, str) else (c[0], list(c[1:]))
+    if name == "as":
+        return accepts_one(args[1], acc, cur, members)
     if name == "seqid":
         return acc["seqid"] == cur["seqid"]
     if name == "strand":
@@ -71,6 +75,18 @@ def accepts(criteria, acc, cur, members):
     return all(accepts_one(c, acc, cur, members) for c in criteria)
 
 
+def unwrap(c):
+    """The criterion itself, whatever values it answers with."""
+    while isinstance(c, (list, tuple)) and c[0] == "as":
+        c = c[2]
+    return c
+
+
+def label(c):
+    c = unwrap(c)
+    return c if isinstance(c, str) else c[1] if c[0] == "custom" else c[0]
+
+
 def single_pass(feats, criteria, rejected_inside=None):
     """Runs (lists of input indexes) of one pass: a feature joins the current run exactly when every
     criterion accepts (run so far, feature); otherwise it starts the next run.
@@ -82,8 +98,7 @@ def single_pass(feats, criteria, rejected_inside=None):
     for i, f in enumerate(feats):
         if (rejected_inside is not None and acc is not None and acc["start"] <= f["start"] and f["end"] <= acc["end"]
                 and not accepts(criteria, acc, f, members)):
-            rejected_inside.append((i, [c if isinstance(c, str) else c[1] if c[0] == "custom" else c[0]
-                                        for c in criteria if not accepts_one(c, acc, f, members)]))
+            rejected_inside.append((i, [label(c) for c in criteria if not accepts_one(c, acc, f, members)]))
         if acc is not None and accepts(criteria, acc, f, members):
             members.append(i)
             acc["start"] = min(acc["start"], f["start"])
@@ -176,6 +191,7 @@ def tie_insensitive(criteria):
     """Criteria lists whose partition does not depend on the order of features that agree on
     (seqid, featuretype, strand, start): label criteria plus criteria that look at cur.start only."""
     for c in criteria:
+        c = unwrap(c)
         name = c if isinstance(c, str) else c[0]
         if name not in ("seqid", "strand", "feature_type", "overlap_end_inclusive", "overlap_end_threshold"):
             return False
